@@ -26,7 +26,7 @@ from pysym.proxies import sym_str
 PROPERTY = 'C14'
 
 TOKENS = ['class', 'None', '1', '+', '-', '.', 'a', '0', '[', ']', '(',
-          "'", '"', ',', '%(k)s', 'b']
+          "'", '"', ',', '%(k)s', 'b', '{', '}']
 
 
 def setup():
@@ -175,17 +175,22 @@ def cubes_paths(tier, seed):
 
 CHECKS = ['role:%(k)s', 'role:a%(k)s%(j)s', 'k:%(k)s', '%(k)s:x',
           "'%(k)s':%(k)s", 'None:%(k)s', 'a.b:%(j)s', 'rule:%(k)s',
-          'rule:q', 'role:x']
+          'rule:q', 'role:x',
+          # placeholder names are free text between the parentheses
+          'role:%(k.j)s', 'k:%(k.a)s', 'a.b:%(j.k.j)s', 'role:%(0)s',
+          'k:%(k j)s', 'role:%()s', 'k:%(.)s', 'rule:%(k.)s']
 
 
 def run_subst(ctx, ci, via):
     from oslo_policy import policy
     common.set_ctx(ctx)
-    gen = symjson.make_gen(ctx, alphabet='q%', strlen=1, width=1,
-                           ints=[0, 1], floats=[1.5])
-    target = symjson.make_dict(ctx, gen, 'target', 1, keys=['k', 'j'])
-    creds = {'roles': [ctx.str('r%d' % i, 'xN1q', 2)
-                       for i in range(ctx.choice('nroles', range(0, 3)))],
+    gen = symjson.make_gen(ctx, alphabet='q', strlen=1, width=1,
+                           ints=[1], floats=[1.5], keys=lambda level: [])
+    target = symjson.make_dict(ctx, gen, 'target', 1,
+                               keys=['k', 'j', 'k.j', '0', ''])
+    creds = {'roles': ['x'] + [ctx.str('r%d' % i, 'aN1q', 2)
+                               for i in range(ctx.choice('nroles',
+                                                         range(0, 2)))],
              'k': ctx.choice('ck', ['x', None, 1, ['x'], {'b': 'x'}]),
              'a': {'b': 'x'}}
     if ctx.bool('no_roles'):
@@ -208,7 +213,7 @@ def cubes_subst(tier, seed):
             for v in ('list', 'expr')]
 
 
-def run_gen(ctx, seed, index):
+def run_gen(ctx, seed, index, which):
     from oslo_policy import policy
     common.set_ctx(ctx)
     rng = random.Random('%s/c14/%s' % (seed, index))
@@ -219,32 +224,41 @@ def run_gen(ctx, seed, index):
         if any(c in lhs for c in ' ()') or lhs[:1] in '\'"':
             lhs = 'a.' + rng.choice(['a', 'b', '0', 'class'])
         hostile.append(lhs + ':' + rng.choice(['x', '%(k)s', '1']))
-    names = ['n%d' % i for i in range(4)]
+    names = ['n%d' % i for i in range(3)]
     rules = {}
     for i, n in enumerate(names):
         leaves = hostile + ['role:x', 'role:%(k)s'] + [
             'rule:%s' % m for m in names[i + 1:]] + ['rule:undef']
         rules[n] = boolang.unparse(boolang.gen_tree(rng, leaves,
                                                     rng.choice([3, 5, 9])))
-    gen = symjson.make_gen(ctx, alphabet='x', strlen=1, width=1, ints=[1],
-                           floats=[1.5],
-                           keys=lambda level: ['a', 'b', '0'][:2 + level % 2]
-                           if level < 2 else [])
-    creds = symjson.make_dict(ctx, gen, 'creds', 3,
-                              keys=['a', 'b', 'class', 'None'])
+    # credentials / target from menus of awkward shapes (the positions are
+    # explored symbolically by the paths harness; here the rule set varies)
+    cmenu = [
+        {}, {'a': None, 'b': 1, 'class': 'x'},
+        {'a': 'x', 'b': [1, 'x'], 'class': {'a': 'x'}},
+        {'a': {'a': 'x', 'b': None, '0': 'x'}, 'b': {'b': [{'a': 1}, 'x']}},
+        {'a': [{'a': 'x'}, None, 'x', ['x']], 'b': 1.5, 'None': 'x'},
+        {'a': [[{'b': 'x'}]], 'b': True, 'class': [None]},
+        {'a': {'a': {'a': 'x'}, 'b': ['x']}, 'b': {'0': 1}},
+        {'a': {'b': {'0': 'x'}}, 'b': 'x'},
+    ]
+    tmenu = [{}, {'k': 'x'}, {'k': None}, {'k': 1}, {'k': ['x']},
+             {'k': {'a': 'x'}}, {'k': '%(k)s'}]
+    creds = dict(ctx.choice('creds', cmenu))
     creds['roles'] = ctx.roles('role', ['x', 'y'], eager=True)
-    target = symjson.make_dict(ctx, gen, 'target', 1, keys=['k'])
+    target = dict(ctx.choice('target', tmenu))
     enf = common.mk_enforcer(rules=policy.Rules.from_dict(rules))
-    for n in names:
-        got = _enforce(ctx, enf, n, target, creds, 'gen:exception',
-                       {'rules': rules, 'name': n})
-        ctx.observe('got', got)
+    n = names[which]
+    got = _enforce(ctx, enf, n, target, creds, 'gen:exception',
+                   {'rules': rules, 'name': n})
+    ctx.observe('got', got)
     ctx.cover('gen:evaluated')
 
 
 def cubes_gen(tier, seed):
-    return [{'seed': seed, 'index': i}
-            for i in range(16 if tier == 'quick' else 150)]
+    return [{'seed': seed, 'index': i, 'which': w}
+            for i in range(12 if tier == 'quick' else 150)
+            for w in range(3)]
 
 
 HARNESSES = {
